@@ -103,6 +103,34 @@ def KeyCfg.step (C : Crypto) (c : KeyCfg) : KOp → KeyCfg
   | .use => (c.current C).1
   | .set bs => c.set C bs
 
+/-! ### Several Configs related by `Config.Clone`
+
+`Clone` copies `SessionTicketKey` and `sessionTicketKeys`; in the model the key list is a value, so
+a copy is independent by construction — this is what correct code must implement (a clone that
+shared the slice's backing array with its original would not). `SOp` are the operations of a
+history over a growing list of Configs; `clone i` appends the copy. -/
+
+def KeyCfg.clone (c : KeyCfg) : KeyCfg := { legacy := c.legacy, installed := c.installed }
+
+inductive SOp where
+  | set (i : Nat) (bs : List Bytes)
+  | use (i : Nat)
+  | clone (i : Nat)
+
+/-- the Config an operation may change (a clone only reads its original). -/
+def SOp.writes : SOp → Option Nat
+  | .set i _ => some i
+  | .use i => some i
+  | .clone _ => none
+
+def sysStep (C : Crypto) (s : List KeyCfg) : SOp → List KeyCfg
+  | .set i bs => s.modify i (fun c => c.set C bs)
+  | .use i => s.modify i (fun c => (c.current C).1)
+  | .clone i =>
+    match s[i]? with
+    | some c => s ++ [c.clone]
+    | none => s
+
 /-! ### Forged client sessions (`MakeClientSessionState` and the setters, u_public.go) -/
 
 structure ClientSess where
